@@ -50,7 +50,7 @@ func main() {
 	report.Main("C08", "model_checking", n, func(r *report.Run, shard, nshards int) { run(r, shard, nshards, *replay) })
 }
 
-var envNames = []string{"PALOMA_FF_PIGEON_STATUS_UPDATE", "PPROF_LISTEN", "PIGEON_HEALTHCHECK_PORT"}
+var envNames = []string{"PALOMA_FF_PIGEON_STATUS_UPDATE", "PPROF_LISTEN", "PIGEON_HEALTHCHECK_PORT"} // every literal passed to os.Getenv / os.LookupEnv in the tree; TZ is covered by the tz deviations
 
 func run(r *report.Run, shard, nshards int, replayFile string) {
 	r.Rule = "one fixed ~310-block history (relay lifecycle with score ties, bridge lifecycle, valset lifecycle, status updates with every level) executed through InitChain/FinalizeBlock/Commit; every twin execution deviates in one environment answer (env-var subset, restart or query round at a block boundary, wall-clock skew, one map-range rotation in paloma code) and must reproduce the baseline's per-block digest; a state = one (deviation, block) pair, a transition = one executed block"
@@ -58,6 +58,7 @@ func run(r *report.Run, shard, nshards int, replayFile string) {
 		"histories are not enumerated: the quantifier 'all block histories' is covered by this one driver history only",
 		"digest = AppHash + per-tx (code, codespace, data, gas used, events) + block events; tx log strings are excluded (not consensus relevant)",
 		"map-iteration deviations exist only in the binary built against the patched runtime (bin/check builds it); rotations are exactly what runtime.mapiterinit can produce; only range statements over maps with at least two entries are deviation points",
+		"the process time zone (TZ) is deviated by replacing time.Local with fixed zones +9h and -11h for a whole execution (chain time starts on a January 31st evening so month arithmetic differs between zones)",
 		"the default wall clock sits at chain time (a node executing live); clock deviations are +40 days, +1100 days (a node replaying later), -400 days and a per-block jitter",
 	}
 	h := newHistory()
@@ -201,6 +202,8 @@ func (h *history) deviations(r *report.Run, base []blockDigest) []dev {
 			out = append(out, dev{Kind: "env", Env: []string{envNames[i], envNames[j]}})
 		}
 	}
+	// process time zone (what TZ selects on a node)
+	out = append(out, dev{Kind: "tz", Skew: 9 * 3600}, dev{Kind: "tz", Skew: -11 * 3600})
 	// clock (patched runtime only)
 	if mapHookAvailable() {
 		// default: wall clock = chain time; deviations: a node replaying the history 40 days / 3 years later, one whose clock is behind, a jittering clock
@@ -277,6 +280,11 @@ func (h *history) execute(d dev) []blockDigest {
 				os.Unsetenv(e)
 			}
 		}()
+	}
+	if d.Kind == "tz" {
+		old := time.Local
+		time.Local = time.FixedZone("verif", int(d.Skew))
+		defer func() { time.Local = old }()
 	}
 	setClockSkew(0)
 	if d.Kind == "clock" && !d.PerBlock {
